@@ -1,28 +1,35 @@
 import SignaloModel.Proofs.BridgeHull
 import SignaloModel.Proofs.BridgeSimple
 import SignaloModel.Proofs.SmoothProofs
+import SignaloModel.Proofs.RegAlphaBeta
 /-!
 # C14 — Alpha-beta tracker follows its recurrence, is linear and preserves constants
 
-Property theorems for C14 (statements are printed by `#check`, axioms by `#check @Registry.abRec_snoc
+The property theorems for C14: `#check` prints each statement, `#print axioms` its axioms;
+`bin/check C14` re-elaborates this file on every run and audits the axiom lists.
+-/
+open SignaloModel
+
+#check @Registry.alphaBeta_registry_offset
+#check @Registry.alphaBeta_registry_scale
+#check @Registry.alphaBeta_registry_linear
+#check @Registry.abRec_snoc
 #check @Registry.ab_state
 #check @Registry.alphaBeta_registry_correct
 #check @Registry.alphaBeta_registry_const
 #check @Smooth.ab_scale
 #check @Smooth.ab_offset
-#print axioms`;
-`bin/check C14` re-elaborates this file on every run and audits the axiom lists).
--/
-open SignaloModel
-
 #check @Smooth.ab_linear
 #check @Smooth.ab_const
 
-#print axioms Smooth.ab_linear
-#print axioms Smooth.ab_const
+#print axioms Registry.alphaBeta_registry_offset
+#print axioms Registry.alphaBeta_registry_scale
+#print axioms Registry.alphaBeta_registry_linear
 #print axioms Registry.abRec_snoc
 #print axioms Registry.ab_state
 #print axioms Registry.alphaBeta_registry_correct
 #print axioms Registry.alphaBeta_registry_const
 #print axioms Smooth.ab_scale
 #print axioms Smooth.ab_offset
+#print axioms Smooth.ab_linear
+#print axioms Smooth.ab_const
